@@ -275,6 +275,15 @@ let do_cmd (t : stree) (fo : forest) (c : sx) : sx =
            let tbl = List.map pair_of_sx prot in
            let protid g = (match List.find_opt (fun (k, _) -> ostr k = ostr g) tbl with Some (_, v) -> v | None -> cstr "None") in
            sx_doc (export_doc t protid h))
+  | L [A "page"; oid; L prot] ->
+      (match find_hog fo (int_of_sx oid) with
+       | None -> A "nohog"
+       | Some h ->
+           let tbl = List.map pair_of_sx prot in
+           let protid g = (match List.find_opt (fun (k, _) -> ostr k = ostr g) tbl with Some (_, v) -> v | None -> cstr "None") in
+           sx_result (fun pg -> L [sx_tree pg.pg_tree; sx_doc pg.pg_doc;
+                                   L (List.map (fun r -> L [sx_str r.fr_species; sx_str r.fr_protid; sx_str r.fr_id]) pg.pg_fam)])
+             (iham_page t protid h))
   | _ -> A "badcmd"
 
 let handle (x : sx) : sx =
